@@ -523,6 +523,18 @@ func (c *c06) nextKey(ch *kernel.Chooser, other bool) *world.SignKey {
 
 func (c *c06) rotate(ch *kernel.Chooser) string {
 	w := c.w
+	if ch.Bool(1, 4) {
+		// the operator replaces the key material under the name and algorithm in use (a fixed key name such as "sig"):
+		// the old key is withdrawn, the published key set has the new key under the old kid. Verifiers start afresh
+		// (a relying party that cached the old key under this kid is the key set's business, C13).
+		cur := w.Store.CurrentKey()
+		k := c.nextKey(ch, false)
+		k.KID = cur.KID
+		w.Store.RotateKey(k, true)
+		c.ks = rp.NewRemoteKeySet(w.Net.Client("verifier", nil, false), w.Issuer+"/keys")
+		c.o.Probe("key-material-replaced-under-the-same-kid")
+		return fmt.Sprintf("replace key material under kid %s (%s)", k.KID, k.Alg)
+	}
 	k := c.nextKey(ch, ch.Bool(1, 3))
 	retire := ch.Bool(1, 3)
 	w.Store.RotateKey(k, retire)
